@@ -5,6 +5,7 @@ package main
 // is a third voter: model != both real sides is drift, never an alarm.
 
 import (
+	"encoding/json"
 	"fmt"
 	"os"
 	"path/filepath"
@@ -175,6 +176,10 @@ func runC01(args []string) {
 			continue
 		}
 		k := h.cases[i].Prog.Prelude
+		if len(h.cases[i].Prog.Globals) > 0 { // package-level declarations cannot share a batch
+			gb, _ := json.Marshal(h.cases[i].Prog.Globals)
+			k += string(gb)
+		}
 		if _, ok := byKey[k]; !ok {
 			keys = append(keys, k)
 		}
